@@ -376,6 +376,7 @@ func (r *run) showGrid() {
 
 // ---------------------------------------------------------------- transform-cache key collision
 
+// REGRESSION monitor (fixed in /repo 12df811: key = header + NUL + sql; must never fire again).
 // Two principals: the owner of `secret` primes the transform cache (key = header + ":" + sql) through an
 // endpoint that uses getTransformedSQL; a caller whose ONE database is `default` then sends, WITHOUT a
 // header, the text "<header>:<sql>": the permission side checks default.cpu, the cache returns the
@@ -395,6 +396,10 @@ func (r *run) cacheCollision() {
 			r.e.rec.grant = defaultDB
 			atk := secretDB + ":" + qq
 			o := r.e.query("/api/v1/query", atk, "")
+			// the separator of the repaired key (regression: must address a different entry)
+			if o2 := r.e.query("/api/v1/query", secretDB+"\x00"+qq, ""); o2.canary {
+				o, atk = o2, secretDB+"\x00"+qq
+			}
 			r.e.rec.grant = ""
 			c.Tag(fmt.Sprintf("cache-collision:prime=%d attack=%d canary=%v", po.status, o.status, o.canary))
 			s := stmt{family: "transform-cache-key-collision", hdr: "", sql: atk}
